@@ -39,7 +39,11 @@ def job_roundtrip(job):
         if len(out['failures']) < 15:
             out['failures'].append(rec)
     for cfg in job['configs']:
-        alg = make_algebra(cfg)
+        try:
+            alg = make_algebra(cfg)
+        except Exception as _e:
+            out['failures'].append({'config': cfg, 'what': 'constructing an admissible algebra raised', 'error': type(_e).__name__ + ': ' + str(_e)[:150]})
+            continue
         fr = O.Frame(alg)
         out['configs'] += 1
         N = 2 ** alg.d
